@@ -12,8 +12,8 @@ from common import call, main, rng_of
 import gencommon as g
 import c09
 
-from predicate.generator.generate_false import generate_false
-from predicate.generator.generate_true import generate_true
+from predicate import generate_false         # the PUBLIC entry point (what users import)
+from predicate import generate_true          # the PUBLIC entry point (what users import)
 from predicate import predicate as PP
 from predicate.standard_predicates import (all_p, any_p, eq_p, ge_p, gt_p, is_bool_p, is_complex_p, is_datetime_p, is_dict_p, is_float_p,
                                            is_int_p, is_none_p, is_not_none_p, is_set_of_p, is_set_p, is_str_p, is_uuid_p, le_p, lt_p,
@@ -33,6 +33,7 @@ def listed_true():
           is_datetime_p, is_complex_p, gt_p(1e300)]
     for e in el:
         ps += [all_p(e), any_p(e), is_set_of_p(e)]
+    ps += [eq_p(float("nan")), not_in_p(""), not_in_p("", "a"), all_p(not_in_p("")), in_p("")]
     # element predicates without examples: only the empty collection is left (still a value to give)
     ps += [all_p(PP.always_false_p), is_set_of_p(PP.always_false_p), all_p(in_p()), is_set_of_p(in_p()), all_p(all_p(PP.always_false_p))]
     return ps
@@ -48,6 +49,7 @@ def listed_false():
            is_dict_p, is_set_p]
     for e in (ge_p(101), eq_p(4), is_int_p, is_none_p, is_not_none_p, gt_p(1e300)):
         ps += [all_p(e), is_set_of_p(e)]
+    ps += [eq_p(float("nan")), ne_p(float("nan")), in_p(""), in_p("", "a"), all_p(eq_p(float("nan")))]
     # element predicates with very few / no satisfying values
     ps += [all_p(PP.always_false_p), is_set_of_p(PP.always_false_p), all_p(ne_p(None)), all_p(is_truthy_p), all_p(PP.is_empty_p),
            all_p(all_p(PP.always_false_p))]
@@ -82,7 +84,8 @@ def search(payload):
                 random.seed(int(payload["seed"]) * 104729 + seed * 31 + len(repr(p)))
                 try:
                     it = genf(p)
-                except ValueError:
+                except Exception as e:  # noqa: BLE001   every predicate listed here is of a kind C11 names: being refused is an internal error
+                    fails.append({"p": repr(p), "generate": mode, "position": 0, "what": f"internal error {type(e).__name__}: {e}", "line_events": 0})
                     continue
                 got = 0
                 for i in range(n_values):
